@@ -1177,7 +1177,9 @@ func TestVerifC02MW(t *testing.T) {
 	}
 	hSteps = append(hSteps, c02HMStep{c02Sub, dns.TypeA}, c02HMStep{c02Sub, dns.TypeTXT})
 	hModes := vrt.Pick(r, []int{mNullIP, mNXDOMAIN}, []int{mNullIP, mCustomV4, mCustomV46, mNXDOMAIN, mREFUSED})
+	hRequesters := [][2]int{{mNullIP, 10}, {mNXDOMAIN, 3600}, {mREFUSED, 0}, {mCustomV46, 60}}
 	r.Bound("mw_history_steps", len(hSteps))
+	r.Bound("mw_history_requesters", "null-ip/10 nxdomain/3600 refused/0 custom-ip/60, every ordered pair")
 	vrt.Part(r, "mainmw-history", func(emit func(c02HMCase)) {
 		c02ReqAssignments(kinds, 1, func(req [nSlots]int) {
 			vrt.Odometer([]int{3, 3, 3, 2}, func(sf []int) {
@@ -1200,25 +1202,48 @@ func TestVerifC02MW(t *testing.T) {
 						}
 					}
 				}
+				// Two requesters with different blocking modes / TTLs asking
+				// the same question one after the other: the hash-prefix
+				// filters and their result caches are shared by all profiles.
+				if cfg.Hash[0] != fMatch && cfg.Hash[1] != fMatch && cfg.Hash[2] != fMatch {
+					return
+				}
+				for _, h := range []string{c02Dom, c02Sub} {
+					for _, qt := range []uint16{dns.TypeA, dns.TypeAAAA, dns.TypeHTTPS} {
+						for _, a := range hRequesters {
+							for _, b := range hRequesters {
+								st := c02HMStep{h, qt}
+								emit(c02HMCase{Cfg: cfg, Mode: a[0], TTL: a[1], Switch: swOn, Steps: [2]c02HMStep{st, st},
+									Other: true, Mode2: b[0], TTL2: b[1]})
+							}
+						}
+					}
+				}
 			})
 		})
 	}, func(c c02HMCase) (fs []vrt.Finding) {
 		rig.record = true
 		defer func() { rig.record = false }()
-		mk := func(st c02HMStep) c02MCase {
-			return c02MCase{Cfg: c.Cfg, Host: st.Host, QType: st.QType, Switch: c.Switch, Mode: c.Mode, TTL: c.TTL}
+		mk := func(i int) c02MCase {
+			st := c.Steps[i]
+			mc := c02MCase{Cfg: c.Cfg, Host: st.Host, QType: st.QType, Switch: c.Switch, Mode: c.Mode, TTL: c.TTL}
+			if i == 1 && c.Other {
+				mc.Mode, mc.TTL = c.Mode2, c.TTL2
+			}
+
+			return mc
 		}
-		fs = append(fs, c02MRunKeep(r, rig, mk(c.Steps[0]), false)...)
+		fs = append(fs, c02MRunKeep(r, rig, mk(0), false)...)
 		first := rig.last
-		fs = append(fs, c02MRunKeep(r, rig, mk(c.Steps[1]), true)...)
+		fs = append(fs, c02MRunKeep(r, rig, mk(1), true)...)
 		got := rig.last
-		fs = append(fs, c02MRunKeep(r, rig, mk(c.Steps[1]), false)...)
+		fs = append(fs, c02MRunKeep(r, rig, mk(1), false)...)
 		want := rig.last
 		if got != want && got != "" && want != "" {
 			fs = append(fs, vrt.F("mainmw-history/answer-differs-from-fresh-filters",
-				"requester{%s mode=%s ttl=%d} config %s: %s %s asked after %s %s (written: %s) is answered {%s}; with empty result caches it is answered {%s}",
-				c02SwitchName[c.Switch], c02ModeName[c.Mode], c.TTL, c.Cfg, dns.Type(c.Steps[1].QType), c.Steps[1].Host,
-				dns.Type(c.Steps[0].QType), c.Steps[0].Host, first, got, want)...)
+				"config %s: %s %s of requester{%s mode=%s ttl=%d} asked after %s %s of requester{mode=%s ttl=%d} (written: %s) is answered {%s}; with empty result caches it is answered {%s}",
+				c.Cfg, dns.Type(c.Steps[1].QType), c.Steps[1].Host, c02SwitchName[c.Switch], c02ModeName[mk(1).Mode], mk(1).TTL,
+				dns.Type(c.Steps[0].QType), c.Steps[0].Host, c02ModeName[c.Mode], c.TTL, first, got, want)...)
 		}
 
 		return fs
@@ -1247,4 +1272,9 @@ type c02HMCase struct {
 	TTL    int          `json:"ttl"`
 	Switch int          `json:"switch"`
 	Steps  [2]c02HMStep `json:"steps"`
+	// Other: the second query comes from another requester of the same
+	// configuration, with blocking mode Mode2 and TTL TTL2.
+	Other bool `json:"other,omitempty"`
+	Mode2 int  `json:"mode2,omitempty"`
+	TTL2  int  `json:"ttl2,omitempty"`
 }
